@@ -15,7 +15,6 @@ package main
 
 import (
 	"fmt"
-	"io"
 	"net/http"
 	"runtime"
 	"strconv"
@@ -30,6 +29,7 @@ import (
 	sharedConfig "lunar/shared-model/config"
 	contextmanager "lunar/toolkit-core/context-manager"
 
+	"github.com/negasus/haproxy-spoe-go/action"
 	"github.com/negasus/haproxy-spoe-go/message"
 	"github.com/negasus/haproxy-spoe-go/payload/kv"
 	"github.com/rs/zerolog"
@@ -58,6 +58,9 @@ type vclock struct {
 	parked chan *sleeper
 	dead   chan struct{}
 	isDead atomic.Bool
+	// hook, when armed, runs once at the next reading of the clock, on the
+	// goroutine that reads it (see armCommit in split.go)
+	hook atomic.Pointer[func()]
 }
 
 func newClock(now int64) *vclock {
@@ -73,7 +76,12 @@ func (k *vclock) set(t int64) {
 	k.now = t
 	k.mu.Unlock()
 }
-func (k *vclock) Now() time.Time { return time.Unix(0, k.ns()) }
+func (k *vclock) Now() time.Time {
+	if f := k.hook.Swap(nil); f != nil {
+		(*f)()
+	}
+	return time.Unix(0, k.ns())
+}
 
 // Sleep parks the calling goroutine until the harness wakes it; when the
 // history is over the goroutine is terminated.
@@ -109,19 +117,30 @@ func (k *vclock) kill() {
 
 // Op is what the generator asks for.
 type Op struct {
-	K   string `json:"op"` // get | update | revert | refuse | adv | ticktxn | tickver | req | resp
+	K   string `json:"op"` // get | update | revert | refuse | adv | ticktxn | tickver | req | resp | begin | commit | fail
 	Txn int    `json:"txn,omitempty"`
 	Tag int    `json:"tag,omitempty"`
 	D   int64  `json:"d_ns,omitempty"`
 	// req / resp (suite "routing"): transaction Txn of sequence Seq; the response carries Status
 	Seq    int `json:"seq,omitempty"`
 	Status int `json:"status,omitempty"`
+	// begin / commit / fail: update U enters its HAProxy call (and stays inside
+	// it while the following ops run) / its call succeeds / its call fails
+	U   int  `json:"u,omitempty"`
+	Rev bool `json:"revert,omitempty"` // begin: UpdatePoliciesData(_, unmanageImmediately = true)
+	// update / revert / commit: look-ups (get / req / resp) that arrive INSIDE
+	// setNextVersion, at the clock reading its VacuumKey makes
+	In []Op `json:"inside,omitempty"`
 }
 
 // Ev is one action as it was executed on the implementation.
 type Ev struct {
-	A        string `json:"act"` // get | update | refused | vactxn | vacver | req | resp
+	A        string `json:"act"` // get | update | refused | vactxn | vacver | req | resp | updbegin | updcommit | updfail | blocked
 	Txn      int    `json:"txn,omitempty"`
+	U        int    `json:"u,omitempty"`        // updbegin / updcommit / updfail: id of the update
+	What     string `json:"what,omitempty"`     // blocked: the op that did not complete inside the call window
+	InFlight []int  `json:"in_flight,omitempty"` // ids of the updates that were inside their HAProxy call when the action ran
+	InCommit bool   `json:"inside_commit,omitempty"` // the look-up ran at the clock reading of the commit recorded just before it
 	Seq      int    `json:"seq,omitempty"`
 	Status   int    `json:"status,omitempty"`
 	Retry    bool   `json:"retry_action,omitempty"` // resp: the retry remedy of the policies used took action
@@ -143,6 +162,7 @@ type Case struct {
 	// statistics (not compared, not used by the monitor)
 	Fallbacks  int `json:"stat_fallbacks"`
 	Reanchored int `json:"stat_reanchored"`
+	Blocked    int `json:"stat_blocked,omitempty"`
 }
 
 // Every object the harness supplies carries its own number (and a content
@@ -196,6 +216,12 @@ type hist struct {
 	lastGot map[int]int
 	mgr     *routing.HandlingDataManager
 	no      int // number of this history (sequence ids are unique over the run)
+	started [2]bool
+	evMu    sync.Mutex
+	flMu    sync.Mutex
+	fl      []*inflight // updates inside their HAProxy call, in order of entry
+	inCommit bool          // the ops being executed run at the clock reading of a commit
+	pending  chan struct{} // an operation started at a commit's clock reading that has not completed yet
 }
 
 func (h *hist) park(first bool) *sleeper {
@@ -230,10 +256,14 @@ func (h *hist) retained() []int {
 	return r
 }
 
-func (h *hist) ev(a string, txn, obj, tag int, implicit bool) {
+func (h *hist) ev(a string, txn, obj, tag int, implicit bool) *Ev {
 	now := h.clk.ns()
+	ret := h.retained()
+	h.evMu.Lock()
+	defer h.evMu.Unlock()
 	h.k.Events = append(h.k.Events, Ev{A: a, Txn: txn, Obj: obj, Tag: tag, Now: now,
-		Rel: rel(now - h.k.T0), Retained: h.retained(), Implicit: implicit})
+		Rel: rel(now - h.k.T0), Retained: ret, Implicit: implicit, InFlight: h.inFlightIDs(), InCommit: h.inCommit})
+	return &h.k.Events[len(h.k.Events)-1]
 }
 
 // pass lets vacuum loop `which` run exactly one pass on the current clock reading.
@@ -280,21 +310,6 @@ func mkMarked(obj, tag int) *config.PoliciesData {
 		panic(err)
 	}
 	return p
-}
-
-// HAProxy's management endpoint, in process: an update whose policies enable a
-// plugin PUTs to it; it answers 200, or fails while haproxyDown is set (that is
-// how a refused update is produced).
-var haproxyDown bool
-
-type haproxyStub struct{}
-
-func (haproxyStub) RoundTrip(r *http.Request) (*http.Response, error) {
-	if haproxyDown {
-		return nil, fmt.Errorf("haproxy stub: down")
-	}
-	return &http.Response{StatusCode: http.StatusOK, Status: "200 OK", Proto: "HTTP/1.1", ProtoMajor: 1, ProtoMinor: 1,
-		Header: http.Header{}, Body: io.NopCloser(strings.NewReader("")), Request: r}, nil
 }
 
 // The remedy plugins (retry state!) live on a clock that never moves and whose
@@ -365,7 +380,7 @@ func (h *hist) respMsg(op Op) *message.Message {
 }
 
 func exec(k *Case) {
-	k.Events, k.Fallbacks, k.Reanchored = nil, 0, 0
+	k.Events, k.Fallbacks, k.Reanchored, k.Blocked = nil, 0, 0, 0
 	if k.T0 == 0 {
 		k.T0 = t0
 	}
@@ -382,94 +397,132 @@ func exec(k *Case) {
 	if k.Routing {
 		h.mgr = routing.VerifC11NewPolicyModeManager(h.acc, p0, svc)
 	}
-	started := [2]bool{}
-	lookedUp := func() { // the first VacuumKey started the loop; it makes one pass and sleeps
-		if !started[0] {
-			started[0] = true
-			if h.sl[0] = h.park(true); h.sl[0] != nil {
-				h.ev("vactxn", 0, 0, 0, true)
+	for _, op := range k.Ops {
+		op := op
+		// While an update is inside its HAProxy call every operation runs under a
+		// bounded wait: should it need a lock the update holds it is recorded as
+		// "blocked" instead of hanging the harness.
+		h.guarded(op, func() { h.do(op) })
+	}
+	h.finish()
+}
+
+// the first VacuumKey of a vacuum started its loop; it makes one pass and sleeps
+func (h *hist) loopStarted(which int) {
+	if h.started[which] {
+		return
+	}
+	h.started[which] = true
+	if h.sl[which] = h.park(true); h.sl[which] != nil {
+		h.ev([]string{"vactxn", "vacver"}[which], 0, 0, 0, true)
+	}
+}
+
+// a handler that panics (e.g. on the empty policies object handed out when even
+// the current version is missing) must not take the harness down: the panic is
+// the event's error and the monitor reports it
+func recoverHandler(err *error) {
+	if r := recover(); r != nil {
+		*err = fmt.Errorf("panic: %v", r)
+	}
+}
+
+func (h *hist) do(op Op) {
+	k := h.k
+	switch op.K {
+	case "get":
+		id := config.TxnID("txn-" + strconv.Itoa(op.Txn))
+		anchored := h.acc.VerifC11IsAnchored(id)
+		p := h.acc.GetTxnPoliciesData(id)
+		obj, tag := objOf(p)
+		if prev, seen := h.lastGot[op.Txn]; seen && anchored && prev != obj {
+			k.Fallbacks++ // anchored, yet another object: the anchored version was gone
+		} else if seen && !anchored {
+			k.Reanchored++
+		}
+		h.lastGot[op.Txn] = obj
+		h.ev("get", op.Txn, obj, tag, false)
+		h.loopStarted(0)
+	case "req":
+		var err error
+		func() {
+			defer recoverHandler(&err)
+			_, err = routing.VerifC11ProcessRequest(h.reqMsg(op), h.mgr)
+		}()
+		e := h.ev("req", op.Txn, 0, 0, false)
+		e.Seq = op.Seq
+		if err != nil {
+			e.Err = err.Error()
+		}
+		h.loopStarted(0)
+	case "resp":
+		var as action.Actions
+		var err error
+		func() {
+			defer recoverHandler(&err)
+			as, err = routing.VerifC11ProcessResponse(h.respMsg(op), h.mgr)
+		}()
+		e := h.ev("resp", op.Txn, 0, 0, false)
+		e.Seq, e.Status = op.Seq, op.Status
+		if err != nil {
+			e.Err = err.Error()
+		}
+		for _, a := range as {
+			if a.Name == "response_active_remedies" {
+				e.Retry = strings.Contains(fmt.Sprintf("%s", a.Value), `"retry"`)
 			}
 		}
-	}
-	for _, op := range k.Ops {
-		switch op.K {
-		case "get":
-			id := config.TxnID("txn-" + strconv.Itoa(op.Txn))
-			anchored := h.acc.VerifC11IsAnchored(id)
-			p := h.acc.GetTxnPoliciesData(id)
-			obj, tag := objOf(p)
-			if prev, seen := h.lastGot[op.Txn]; seen && anchored && prev != obj {
-				k.Fallbacks++ // anchored, yet another object: the anchored version was gone
-			} else if seen && !anchored {
-				k.Reanchored++
-			}
-			h.lastGot[op.Txn] = obj
-			h.ev("get", op.Txn, obj, tag, false)
-			lookedUp()
-		case "req":
-			_, err := routing.VerifC11ProcessRequest(h.reqMsg(op), h.mgr)
-			h.ev("req", op.Txn, 0, 0, false)
-			e := &k.Events[len(k.Events)-1]
-			e.Seq = op.Seq
-			if err != nil {
-				e.Err = err.Error()
-			}
-			lookedUp()
-		case "resp":
-			as, err := routing.VerifC11ProcessResponse(h.respMsg(op), h.mgr)
-			h.ev("resp", op.Txn, 0, 0, false)
-			e := &k.Events[len(k.Events)-1]
-			e.Seq, e.Status = op.Seq, op.Status
-			if err != nil {
-				e.Err = err.Error()
-			}
-			for _, a := range as {
-				if a.Name == "response_active_remedies" {
-					e.Retry = strings.Contains(fmt.Sprintf("%s", a.Value), `"retry"`)
+		h.loopStarted(0)
+	case "update", "revert", "refuse":
+		p, obj := h.newObj(op.Tag, op.K == "refuse")
+		stub.cur.Store(nil)
+		haproxyDown.Store(op.K == "refuse")
+		var fired *bool
+		if len(op.In) > 0 && op.K != "refuse" {
+			fired = h.armCommit("update", 0, obj, op.Tag, op.In)
+		}
+		err := h.acc.UpdatePoliciesData(p, op.K == "revert")
+		haproxyDown.Store(false)
+		h.disarm()
+		if err != nil {
+			h.ev("refused", 0, obj, op.Tag, false)
+			break
+		}
+		if fired == nil || !*fired {
+			h.ev("update", 0, obj, op.Tag, false)
+			h.runPlain(op.In) // the commit read no clock: the arrivals come after it
+		}
+		h.loopStarted(1)
+	case "begin":
+		h.begin(op)
+	case "commit":
+		h.end(op.U, false, op.In)
+	case "fail":
+		h.end(op.U, true, nil)
+	case "adv":
+		target := h.clk.ns() + op.D
+		for k.Auto {
+			w := -1
+			for i, s := range h.sl {
+				if s != nil && s.due <= target && (w < 0 || s.due < h.sl[w].due) {
+					w = i
 				}
 			}
-			lookedUp()
-		case "update", "revert", "refuse":
-			p, obj := h.newObj(op.Tag, op.K == "refuse")
-			haproxyDown = op.K == "refuse"
-			err := h.acc.UpdatePoliciesData(p, op.K == "revert")
-			haproxyDown = false
-			if err != nil {
-				h.ev("refused", 0, obj, op.Tag, false)
+			if w < 0 {
 				break
 			}
-			h.ev("update", 0, obj, op.Tag, false)
-			if !started[1] {
-				started[1] = true
-				if h.sl[1] = h.park(true); h.sl[1] != nil {
-					h.ev("vacver", 0, 0, 0, true)
-				}
+			if h.sl[w].due > h.clk.ns() {
+				h.clk.set(h.sl[w].due)
 			}
-		case "adv":
-			target := h.clk.ns() + op.D
-			for k.Auto {
-				w := -1
-				for i, s := range h.sl {
-					if s != nil && s.due <= target && (w < 0 || s.due < h.sl[w].due) {
-						w = i
-					}
-				}
-				if w < 0 {
-					break
-				}
-				if h.sl[w].due > h.clk.ns() {
-					h.clk.set(h.sl[w].due)
-				}
-				h.pass(w)
-			}
-			h.clk.set(target)
-		case "ticktxn":
-			h.pass(0)
-		case "tickver":
-			h.pass(1)
-		default:
-			panic("unknown op " + op.K)
+			h.pass(w)
 		}
+		h.clk.set(target)
+	case "ticktxn":
+		h.pass(0)
+	case "tickver":
+		h.pass(1)
+	default:
+		panic("unknown op " + op.K)
 	}
 }
 
@@ -479,16 +532,27 @@ func coq(k *Case) string {
 		got := int64(0)
 		switch e.A {
 		case "get":
-			a = fmt.Sprintf("Get %d %d", e.Txn, e.Now)
+			a = fmt.Sprintf("A (Get %d %d)", e.Txn, e.Now)
 			got = int64(e.Obj)
 		case "update":
-			a = fmt.Sprintf("Update %d %d", e.Obj, e.Now)
+			a = fmt.Sprintf("A (Update %d %d)", e.Obj, e.Now)
 		case "refused":
-			a = fmt.Sprintf("Refused %d", e.Now)
+			a = fmt.Sprintf("A (Refused %d)", e.Now)
 		case "vactxn":
-			a = fmt.Sprintf("VacTxn %d", e.Now)
+			a = fmt.Sprintf("A (VacTxn %d)", e.Now)
 		case "vacver":
-			a = fmt.Sprintf("VacVer %d", e.Now)
+			a = fmt.Sprintf("A (VacVer %d)", e.Now)
+		case "updbegin":
+			a = fmt.Sprintf("UpdBegin %d %d %d", e.U, e.Obj, e.Now)
+		case "updcommit":
+			a = fmt.Sprintf("UpdCommit %d %d", e.U, e.Now)
+		case "updfail":
+			a = fmt.Sprintf("UpdFail %d %d", e.U, e.Now)
+		case "blocked":
+			// the operation did not complete while an update was inside its call:
+			// observation -2, which the model never produces
+			a = fmt.Sprintf("A (Refused %d)", e.Now)
+			got = -2
 		}
 		if k.Routing {
 			switch e.A {
@@ -513,11 +577,16 @@ func coq(k *Case) string {
 
 // ------------------------------------------------------------------ monitor
 
-// monitor restates the three claims over what the implementation did; it knows
+// monitor restates the claims over what the implementation did; it knows
 // nothing about versions, queues or anchors — only which object was handed out
-// when, which object was installed when, and which objects are still retained.
+// when, which object was installed when (atomic update, or the commit of a split
+// one), which updates were inside their HAProxy call when, which of them failed,
+// and which objects are still retained.
 // At exactly t0 + 30 s it accepts either behaviour (the text does not say
-// whether the retention period is closed).
+// whether the retention period is closed). A transaction first seen while an
+// update is inside its HAProxy call may be given the installed object or that
+// update's (the text does not fix the instant within the call at which a
+// successful update takes effect) — but never the object of an update that fails.
 func monitor(k *Case) []c.Hit {
 	var hits []c.Hit
 	add := func(sig, dem, obs string) {
@@ -527,17 +596,41 @@ func monitor(k *Case) []c.Hit {
 		at       int64
 		obj, tag int
 	}
-	current := 0
+	failed := map[int]int{} // object of a failed / refused update -> index of the failure
+	for i, e := range k.Events {
+		if e.A == "updfail" || e.A == "refused" {
+			failed[e.Obj] = i
+		}
+	}
+	current, previous := 0, 0
+	calling := map[int]bool{} // objects of the updates inside their HAProxy call
 	first := map[int]sight{}
 	lastAnchor := map[int]int64{} // object -> latest instant a transaction was first seen with it
 	for i, e := range k.Events {
 		switch e.A {
-		case "update":
-			current = e.Obj
+		case "update", "updcommit":
+			previous, current = current, e.Obj
+			delete(calling, e.Obj)
+		case "updbegin":
+			calling[e.Obj] = true
+		case "updfail":
+			delete(calling, e.Obj)
 		case "get":
+			if fi, bad := failed[e.Obj]; bad && e.Obj >= 0 {
+				add("failed-update-visible:get",
+					fmt.Sprintf("the update that supplied object %d failed (event %d): no transaction is ever given that object", e.Obj, fi),
+					fmt.Sprintf("event %d at %s handed object %d to transaction %d", i, e.Rel, e.Obj, e.Txn))
+			}
 			f, seen := first[e.Txn]
 			if !seen {
-				if e.Obj != current {
+				if e.InCommit {
+					// arrived inside setNextVersion: the object installed before or the new one
+					if e.Obj != current && e.Obj != previous && !calling[e.Obj] {
+						add("first-sight-neither-old-nor-new:get",
+							fmt.Sprintf("transaction %d, first seen at %s while object %d was being installed in place of object %d, uses one of the two", e.Txn, e.Rel, current, previous),
+							fmt.Sprintf("event %d handed out object %d (-1 = an object that was never installed, e.g. the empty policies)", i, e.Obj))
+					}
+				} else if e.Obj != current && !calling[e.Obj] {
 					add("first-sight-not-current:get",
 						fmt.Sprintf("transaction %d, first seen at %s, uses the policies current then (object %d)", e.Txn, e.Rel, current),
 						fmt.Sprintf("event %d handed out object %d", i, e.Obj))
@@ -554,9 +647,15 @@ func monitor(k *Case) []c.Hit {
 				}
 			}
 		}
+		if e.A == "blocked" {
+			continue // nothing was observed
+		}
 		for obj, at := range lastAnchor {
 			if e.Now >= at+ttl {
 				continue
+			}
+			if _, bad := failed[obj]; bad {
+				continue // reported as failed-update-visible
 			}
 			found := false
 			for _, r := range e.Retained {
@@ -588,24 +687,52 @@ func monitorRouting(k *Case) []c.Hit {
 	add := func(sig, dem, obs string) {
 		hits = append(hits, c.Hit{Signature: sig, Demanded: dem, Observed: obs, Case: k})
 	}
+	// what a transaction may be processed with: the object installed when it was
+	// first seen, or that of an update inside its HAProxy call at that instant
+	// (see monitor) — never that of an update that fails
 	type sight struct {
-		at  int64
-		obj int
+		at    int64
+		obj   int
+		cands map[int]bool
 	}
-	current := 0
+	failed := map[int]int{}
+	for i, e := range k.Events {
+		if e.A == "updfail" || e.A == "refused" {
+			failed[e.Obj] = i
+		}
+	}
+	current, previous := 0, 0
+	calling := map[int]bool{}
 	first := map[int]sight{}
 	alive := map[int]bool{}
 	lastAnchor := map[int]int64{}
 	for i, e := range k.Events {
 		switch e.A {
-		case "update":
-			current = e.Obj
+		case "update", "updcommit":
+			previous, current = current, e.Obj
+			delete(calling, e.Obj)
+		case "updbegin":
+			calling[e.Obj] = true
+		case "updfail":
+			delete(calling, e.Obj)
 		case "req", "resp":
 			f, seen := first[e.Txn]
 			if !seen {
-				f = sight{e.Now, current}
+				f = sight{e.Now, current, map[int]bool{current: true}}
+				for o := range calling {
+					f.cands[o] = true
+				}
+				if e.InCommit { // arrived inside setNextVersion: the object installed before or the new one
+					f.cands[previous] = true
+				}
 				first[e.Txn] = f
 				lastAnchor[current] = e.Now
+			}
+			if strings.HasPrefix(e.Err, "panic:") {
+				add("transaction-not-processed:"+e.A,
+					fmt.Sprintf("the %s of transaction %d (first seen %s under object %d) is processed with the policies of object %d", e.A, e.Txn, rel(f.at-k.T0), f.obj, f.obj),
+					fmt.Sprintf("event %d at %s: the handler panicked: %s", i, e.Rel, e.Err))
+				break
 			}
 			if e.A == "req" {
 				break
@@ -613,20 +740,27 @@ func monitorRouting(k *Case) []c.Hit {
 			j := e.Status - 500
 			within := e.Now < f.at+ttl
 			if e.Retry {
-				if within && j != f.obj {
+				if fi, bad := failed[j]; bad {
+					add("failed-update-visible:resp",
+						fmt.Sprintf("the update that supplied object %d failed (event %d): no transaction is ever processed with that object", j, fi),
+						fmt.Sprintf("event %d at %s: status %d of transaction %d answered by the retry remedy of object %d", i, e.Rel, e.Status, e.Txn, j))
+				} else if within && !f.cands[j] {
 					add("response-used-other-version:resp",
 						fmt.Sprintf("response of transaction %d (first seen %s under object %d) is processed with object %d", e.Txn, rel(f.at-k.T0), f.obj, f.obj),
 						fmt.Sprintf("event %d at %s: status %d answered by the retry remedy of object %d", i, e.Rel, e.Status, j))
 				}
 				alive[e.Seq] = true
 			} else {
-				if within && j == f.obj && (e.Txn == e.Seq || alive[e.Seq]) {
+				if within && j == f.obj && len(f.cands) == 1 && (e.Txn == e.Seq || alive[e.Seq]) {
 					add("response-not-processed-with-pinned-version:resp",
 						fmt.Sprintf("response of transaction %d (first seen %s under object %d) is processed with object %d, whose retry remedy answers status %d", e.Txn, rel(f.at-k.T0), f.obj, f.obj, e.Status),
 						fmt.Sprintf("event %d at %s: no retry action (sequence %d has retry state): other policies were used", i, e.Rel, e.Seq))
 				}
 				alive[e.Seq] = false
 			}
+		}
+		if e.A == "blocked" {
+			continue
 		}
 		for obj, at := range lastAnchor {
 			if e.Now >= at+ttl {
@@ -655,9 +789,10 @@ func runRouting(o *c.Out, k Case) {
 	}
 	ups, retries, resps, foreign, across := 0, 0, 0, 0, 0
 	seenAt := map[int]int{} // txn -> number of updates when first seen
+	w := windowStats(&k)
 	for _, e := range k.Events {
 		switch e.A {
-		case "update":
+		case "update", "updcommit":
 			ups++
 		case "req", "resp":
 			if _, ok := seenAt[e.Txn]; !ok {
@@ -686,7 +821,8 @@ func runRouting(o *c.Out, k Case) {
 		o.Count("routing:has_reload_between_request_and_response")
 	}
 	o.CountN("routing:retry_actions", retries)
-	idx := o.Case("routing", coq(&k), k, foreign > 0 && across > 0 && retries > 0)
+	w.count(o, "routing:")
+	idx := o.Case("routing", coq(&k), k, (foreign > 0 && across > 0 && retries > 0) || (w.firstInsideThenAgain && retries > 0))
 	o.MonitorChecked(1)
 	for _, h := range monitorRouting(&k) {
 		h.Suite, h.Index = "routing", idx
@@ -763,6 +899,8 @@ func randomRouting(o *c.Out) {
 			}
 		}
 		phase := make([]int, nseq) // 0 = request next, 1 = response next
+		var fl [][2]int            // updates inside their HAProxy call: (id, object)
+		nextU := 1
 		firstObj := map[int]int{}
 		obj, objs := 0, 1
 		left := 0
@@ -801,11 +939,31 @@ func randomRouting(o *c.Out) {
 				phase[s] = 0
 				queues[s] = queues[s][1:]
 				left--
-			case x < 68:
+			case x < 60:
 				k.Ops = append(k.Ops, Op{K: c.Pick(r, []string{"update", "update", "revert"}), Tag: r.Intn(4)})
 				obj = objs
 				objs++
-			case x < 70:
+			case x < 66:
+				if len(fl) >= 2 || blockedSeen >= 8 {
+					continue
+				}
+				k.Ops = append(k.Ops, Op{K: "begin", U: nextU, Tag: r.Intn(4), Rev: r.Chance(1, 4)})
+				fl = append(fl, [2]int{nextU, objs})
+				nextU++
+				objs++
+			case x < 72:
+				if len(fl) == 0 {
+					continue
+				}
+				w := r.Intn(len(fl))
+				if r.Chance(2, 3) {
+					k.Ops = append(k.Ops, Op{K: "commit", U: fl[w][0]})
+					obj = fl[w][1]
+				} else {
+					k.Ops = append(k.Ops, Op{K: "fail", U: fl[w][0]})
+				}
+				fl = append(fl[:w], fl[w+1:]...)
+			case x < 74:
 				k.Ops = append(k.Ops, Op{K: "refuse", Tag: r.Intn(4)})
 				objs++
 			case x < 86:
@@ -824,14 +982,15 @@ func randomRouting(o *c.Out) {
 
 func run(o *c.Out, k Case) {
 	exec(&k)
+	w := windowStats(&k)
 	ups, removed, relook, atEdge := 0, false, false, false
 	firstAt := map[int]int64{}
 	maxRet := 0
 	for i, e := range k.Events {
-		if e.A == "update" {
+		if e.A == "update" || e.A == "updcommit" {
 			ups++
 		}
-		if i > 0 && len(e.Retained) < len(k.Events[i-1].Retained) {
+		if i > 0 && e.A != "blocked" && k.Events[i-1].A != "blocked" && len(e.Retained) < len(k.Events[i-1].Retained) {
 			removed = true
 		}
 		if len(e.Retained) > maxRet {
@@ -879,7 +1038,8 @@ func run(o *c.Out, k Case) {
 	if atEdge {
 		o.Count("relookup_within_1ns_of_30s")
 	}
-	idx := o.Case("hist", coq(&k), k, ups > 0 && relook && removed)
+	w.count(o, "")
+	idx := o.Case("hist", coq(&k), k, (ups > 0 && relook && removed) || w.firstInsideThenAgain)
 	o.MonitorChecked(1)
 	for _, h := range monitor(&k) {
 		h.Suite, h.Index = "hist", idx
@@ -887,10 +1047,102 @@ func run(o *c.Out, k Case) {
 	}
 }
 
+// windowStats: what happened inside HAProxy call windows (distribution counters
+// and the non-trivial rule; not used by the monitors).
+type wstats struct {
+	windows, failedW, insideOps, overlapping, nestedAtomic, blocked int
+	firstInside, againInside, insideCommit                      int
+	firstInsideThenAgain                                        bool // a transaction first seen inside a window is looked up again after that window
+}
+
+func windowStats(k *Case) wstats {
+	var w wstats
+	seen := map[int]bool{}
+	insideOf := map[int][]int{} // txn first seen inside the windows of these updates
+	for _, e := range k.Events {
+		switch e.A {
+		case "updbegin":
+			w.windows++
+			if len(e.InFlight) > 1 {
+				w.overlapping++
+			}
+		case "updfail":
+			w.failedW++
+		case "blocked":
+			w.blocked++
+		case "update":
+			if len(e.InFlight) > 0 {
+				w.nestedAtomic++
+			}
+		}
+		if len(e.InFlight) > 0 && e.A != "updbegin" {
+			w.insideOps++
+		}
+		if e.InCommit {
+			w.insideCommit++
+		}
+		if e.A == "get" || e.A == "req" || e.A == "resp" {
+			if !seen[e.Txn] {
+				seen[e.Txn] = true
+				if len(e.InFlight) > 0 {
+					w.firstInside++
+					insideOf[e.Txn] = e.InFlight
+				}
+			} else {
+				if len(e.InFlight) > 0 {
+					w.againInside++
+				}
+				for _, u := range insideOf[e.Txn] {
+					still := false
+					for _, v := range e.InFlight {
+						still = still || u == v
+					}
+					if !still {
+						w.firstInsideThenAgain = true
+					}
+				}
+			}
+		}
+	}
+	return w
+}
+
+func (w wstats) count(o *c.Out, pre string) {
+	if w.insideCommit > 0 {
+		o.Count(pre + "has_lookup_arriving_inside_setNextVersion")
+	}
+	if w.windows == 0 {
+		return
+	}
+	o.Count(pre + "has_update_split_at_its_haproxy_call")
+	o.CountN(pre+"window:actions_inside_a_call", w.insideOps)
+	if w.failedW > 0 {
+		o.Count(pre + "window:has_failed_call")
+	}
+	if w.overlapping > 0 {
+		o.Count(pre + "window:has_overlapping_updates")
+	}
+	if w.nestedAtomic > 0 {
+		o.Count(pre + "window:has_whole_update_inside_a_call")
+	}
+	if w.firstInside > 0 {
+		o.Count(pre + "window:has_txn_first_seen_inside_a_call")
+	}
+	if w.againInside > 0 {
+		o.Count(pre + "window:has_txn_seen_again_inside_a_call")
+	}
+	if w.firstInsideThenAgain {
+		o.Count(pre + "window:has_txn_first_seen_inside_a_call_and_again_after_it")
+	}
+	if w.blocked > 0 {
+		o.Count(pre + "window:has_blocked_operation")
+	}
+}
+
 func main() {
 	zerolog.SetGlobalLevel(zerolog.Disabled)
 	o := c.NewOut("C11")
-	http.DefaultClient.Transport = haproxyStub{}
+	http.DefaultClient.Transport = stub
 	o.DeclareSuite("hist", "From Verif Require Import C11.Model.", "case", "run_case")
 	o.DeclareSuite("routing", "From Verif Require Import C11.Model.", "rcase", "run_rcase")
 	o.Rule("histories of look-ups (3-4 transactions), reloads/reverts/refused reloads (fresh object each), " +
@@ -902,7 +1154,8 @@ func main() {
 		"Suite routing: the same accessor behind the real processRequest/processResponse (policy mode): sequences of an ordinary transaction and " +
 		"retried attempts (id != sequence id), reloads between a request and its response, response status = marker of the object current at " +
 		"the request (mostly) / at the response / random; grid + random; non-trivial = a response with id != sequence id, a reload between a " +
-		"request and its response, and a retry action")
+		"request and its response, and a retry action; or a transaction first seen inside the HAProxy call window of an update (grid: request inside/before " +
+		"the window x call succeeds/fails x one more update x response inside/after x marker of object 0/1/2; random) and seen again after it, and a retry action")
 	var k Case
 	if suite, ok := o.ReplayCase(&k); ok {
 		if suite == "routing" || k.Routing {
@@ -916,10 +1169,19 @@ func main() {
 	if !o.Search() {
 		exhaustive(o)
 		grid(o)
+		windowGrid(o)
+		commitArrivals(o)
 		gridRouting(o)
+		windowGridRouting(o)
+		commitArrivalsRouting(o)
 	}
 	random(o)
+	randomWindows(o)
 	randomRouting(o)
+	if blockedSeen > 0 {
+		o.Note(fmt.Sprintf("%d operations did not complete while an update was inside its HAProxy call (they waited for a lock the update holds); "+
+			"window cases stop being generated after 8", blockedSeen))
+	}
 	if vacuumNeverStarts {
 		o.Note("a vacuum loop was never seen entering Sleep after the first VacuumKey; its passes could not be driven")
 	}
